@@ -16,6 +16,7 @@ import Pcore.Proofs.FilesFuelMono
 import Pcore.Proofs.FilesTypesetDep
 import Pcore.Proofs.FilesAncestorMod
 import Pcore.Proofs.FilesInitDep
+import Pcore.Proofs.FilesDepRefind
 /-!
 # C15 — File-based loading maps names to definition files faithfully
 
@@ -26,7 +27,7 @@ once.  A name without a file stays absent without side effects, and a malformed 
 error that names that file and the line.
 
 All theorems are about the executable model `Pcore.Model.Files` (the code as it is now, after fixes 80f753b, 51b01c7,
-8bf8d8e); the model is tied to the code by the correspondence run (`./check C15`).  They quantify over every tree (a list
+8bf8d8e, 9d272bd); the model is tied to the code by the correspondence run (`./check C15`).  They quantify over every tree (a list
 of (path, body) in any walk order), every module list, every context loader, every lookup sequence and every fuel.
 
 Full statement / proved / missing
@@ -99,6 +100,9 @@ Full statement / proved / missing
   `Mod::A` file is the error of the lookup of `Mod::A::B`.
 * `C15_init_typeset_dependency` (proved) — a module's own unqualified name through the dependency loader, for any list of
   distinct ordinary modules: the loop over all members, `init_typeset.pp` the only read, exact state.
+* `C15_dependency_miss_not_final`, `C15_dependency_miss_again` (proved; fix 9d272bd of /repo) — a miss recorded by the
+  dependency loader is not final: a definition made meanwhile through the module's DefiningLoader is found, stored over
+  the miss and answered; with nothing new `find` misses again and the state is untouched.
 * missing: several existing ancestors at once, ancestors through the dependency loader, a module called `environment`
   among the members of that loop; it is false as
   stated for layouts that define one name twice (`C15_duplicate_redefine`, known finding C15-duplicate-redefine) and the
@@ -1407,6 +1411,46 @@ example :
     (runLoads 40 initCfg {} [["MYMOD"], ["Mymod", "Tb"], ["Mymod"]]).2.reads =
       [["modules", "mymod", "types", "init_typeset.pp"]] := by
   refine ⟨memHyp_of_check (by decide), memHyp_of_check (by decide), by decide, by decide, by decide⟩
+
+/-! ## a miss recorded by the dependency loader is not final (fix 9d272bd) -/
+
+/-- the dependency loader holds a recorded miss for `Mod::X`; meanwhile `Mod::X` has been defined through the module's
+    DefiningLoader (no file: `px.AddTypes`): the lookup runs `find` again, finds the module's definition, stores it over
+    the miss and answers it — 'found iff a file / definition exists NOW' -/
+theorem C15_dependency_miss_not_final (cfg : Cfg) (mod : String) (hv : cfg.via = .d) (hflat : cfg.flat = false)
+    (hmods : cfg.mods.contains mod = true) (name : Name) (hqual : qualified name = true)
+    (hparts : ∃ ps, partsOf name = some ps ∧ ps.head? = some mod) (hsys : sysLoad name = none)
+    (s : St) (d : Def) (n : Nat)
+    (hd : s.get .d (keyOf name) = some none) (hg : s.get .g (keyOf name) = some none)
+    (hm : s.get (.m mod) (keyOf name) = some (some d)) :
+    loadS (n+5) cfg s name = (.found d, s.put .d (keyOf name) (some d)) :=
+  dep_refind_found cfg mod hv hflat hmods name hqual hparts hsys s d n hd hg hm
+
+/-- … and when the module still has nothing, `find` misses again: `notfound`, the state is untouched (the miss is recorded
+    only once); a cached VALUE is final (`C15_member_cached_dependency`) -/
+theorem C15_dependency_miss_again (cfg : Cfg) (mod : String) (hv : cfg.via = .d) (hflat : cfg.flat = false)
+    (hmods : cfg.mods.contains mod = true) (name : Name) (hqual : qualified name = true)
+    (hparts : ∃ ps, partsOf name = some ps ∧ ps.head? = some mod) (hsys : sysLoad name = none)
+    (s : St) (n : Nat)
+    (hd : s.get .d (keyOf name) = some none) (hg : s.get .g (keyOf name) = some none)
+    (hm : s.get (.m mod) (keyOf name) = some none) :
+    loadS (n+5) cfg s name = (.notfound, s) :=
+  dep_refind_miss cfg mod hv hflat hmods name hqual hparts hsys s n hd hg hm
+
+/-- non-vacuity, the whole story from the empty caches (no file at all): miss, miss again (same state), definition through
+    the module's loader, found in either letter case, found from the cache -/
+example :
+    let s1 := (loadS 20 absCfg {} ["Other", "Late"]).2
+    let s2 := (defineS s1 (.m "other") ["Other", "Late"]).2
+    (loadS 20 absCfg {} ["Other", "Late"]).1 = .notfound ∧
+    s1.get .d (keyOf ["Other", "Late"]) = some none ∧ s1.get .g (keyOf ["Other", "Late"]) = some none ∧
+    s1.get (.m "other") (keyOf ["Other", "Late"]) = some none ∧
+    loadS 20 absCfg s1 ["Other", "Late"] = (.notfound, s1) ∧
+    defineS s1 (.m "other") ["Other", "Late"] = (none, s1.put (.m "other") (keyOf ["Other", "Late"]) (some ⟨.alias, ["Other", "Late"]⟩)) ∧
+    s2.get (.m "other") (keyOf ["Other", "Late"]) = some (some ⟨.alias, ["Other", "Late"]⟩) ∧
+    (runLoads 20 absCfg s2 [["OTHER", "late"], ["Other", "Late"]]).1 =
+      [.found ⟨.alias, ["Other", "Late"]⟩, .found ⟨.alias, ["Other", "Late"]⟩] := by
+  decide
 
 /-! ## negation witnesses for the known findings -/
 
